@@ -91,9 +91,35 @@ def run_spec(spec: dict) -> Run:
                 log.append(("unpark", me(), snap(), bool(ok)))
                 return ok
 
+            def notify(self, n=1):
+                log.append(("notify", me()))
+                return super().notify(n)
+
+        class TapEvent(D.Event):
+            """the task's stop flag: the moment it is set is part of the record"""
+
+            def __init__(self, owner):
+                super().__init__()
+                self._owner = owner
+
+            def set(self):
+                log.append(("stopflag", self._owner))
+                r = super().set()
+                if self._owner in stall_stop:
+                    # a legal schedule, chosen on purpose: the thread inside stop_task is not scheduled again before the
+                    # reader's current call has ended (or nothing else can run)
+                    done0 = calls_done.get(self._owner, 0)
+                    D.SCHED.yield_point("stop_task.stalled", blocked_on=lambda: calls_done.get(self._owner, 0) > done0, timeout=1000.0)
+                return r
+
+            def is_set(self):
+                log.append(("flagread", self._owner, self._flag))
+                return super().is_set()
+
         rx._queue_cond = TapCond()
         names[_rt.get_ident()] = "main"
         stop_flags = {}          # reader name -> callable: stop requested?
+        stall_stop = {f"R{st['reader']}" for st in spec.get("stops", ()) if st.get("stall")}
         calls_done = {}          # reader name -> completed get calls
 
         def deliver(tag):
@@ -133,6 +159,10 @@ def run_spec(spec: dict) -> Run:
 
         def reader_script(name, rd, stop_requested):
             gates = set(rd.get("gates", ()))
+            if rd.get("wait_parked") is not None:
+                # start reading only after another reader went to sleep (fixes who is first in the wait list)
+                other = f"R{rd['wait_parked']}"
+                D.SCHED.yield_point("gate.parked", blocked_on=lambda: other in parked or calls_done.get(other, 0) > 0)
             for k, tmo in enumerate(rd["calls"]):
                 if k in gates:
                     # wait (scheduler-blocked, no QMI code involved) until this reader has been asked to stop
@@ -149,9 +179,13 @@ def run_spec(spec: dict) -> Run:
                 holder = {}
 
                 class ReaderTask(QMI_Task):
+                    def __init__(self_inner, runner, tname):  # noqa
+                        super().__init__(runner, tname)
+                        self_inner._stop_requested = TapEvent(tname)
+
                     def run(self_inner, _name=name, _rd=rd):  # noqa
                         names[_rt.get_ident()] = _name
-                        reader_script(_name, _rd, self_inner._stop_requested.is_set)
+                        reader_script(_name, _rd, lambda: self_inner._stop_requested._flag)
 
                 class _Runner:
                     pass
@@ -162,7 +196,7 @@ def run_spec(spec: dict) -> Run:
                 th.start()
                 th.start_task()
                 task_threads[name] = th
-                stop_flags[name] = (lambda th=th: th.task is not None and th.task._stop_requested.is_set())
+                stop_flags[name] = (lambda th=th: th.task is not None and th.task._stop_requested._flag)
                 threads.append(th)
             else:
                 flag = {"stop": False}
@@ -202,8 +236,13 @@ def run_spec(spec: dict) -> Run:
                 names[_rt.get_ident()] = "DR"
                 for k in range(spec["rescue"]):
                     # the signal a sleeping reader is waiting for eventually arrives
-                    D.SCHED.yield_point("rescue.wait", blocked_on=lambda: all(calls_done.get(n, 0) >= ncalls[n] for n in rnames)
-                                        or (any(n in parked for n in rnames) and len(rx._queue) == 0))
+                    if spec.get("rescue_all"):
+                        # ... once every reader that is still reading sleeps
+                        D.SCHED.yield_point("rescue.wait", blocked_on=lambda: all(calls_done.get(n, 0) >= ncalls[n] for n in rnames)
+                                            or (all(n in parked or calls_done.get(n, 0) >= ncalls[n] for n in rnames) and len(rx._queue) == 0))
+                    else:
+                        D.SCHED.yield_point("rescue.wait", blocked_on=lambda: all(calls_done.get(n, 0) >= ncalls[n] for n in rnames)
+                                            or (any(n in parked for n in rnames) and len(rx._queue) == 0))
                     if all(calls_done.get(n, 0) >= ncalls[n] for n in rnames):
                         break
                     deliver(5000 + k)
@@ -505,6 +544,126 @@ def lin_lines(spec: dict, run: Run):
     return lines, outs
 
 
+def _tid(name: str) -> int:
+    if name == "main":
+        return 0
+    base = {"D": 10, "R": 20, "S": 40}.get(name[0])
+    if name == "DR":
+        return 32
+    if name == "X":
+        return 30
+    if name == "Q":
+        return 31
+    return base + int(name[1:]) if base is not None and name[1:].isdigit() else 99
+
+
+def conc_lines(spec: dict, run: Run):
+    """(lines, expected outputs) for the concurrent model driver: the real run's events at lock granularity.  Every event
+    must be enabled in `RecvConc` running the generated programs (`cacq` -> ok, `crun` -> parked / done <result>,
+    `cunpark` -> ok) and the queue after every critical section must agree."""
+    calls, sections, _ = calls_of(spec, run)
+    kinds = {f"R{r}": rd["kind"] for r, rd in enumerate(spec.get("readers", ()))}
+    res_at = {}                       # log index of an `exit` event -> the call it ends
+    for c in calls:
+        if c["end"] is not None and c["sections"]:
+            last = sections[c["sections"][-1]]
+            if last["how"] == "exit":
+                res_at[last["at"]] = c
+    dead = set()                      # threads whose open call never ended: stop following them
+    for c in calls:
+        if c["end"] is None:
+            dead.add((c["thr"], c["begin"]))
+    lines, outs = [f"cinit {spec['cap']} {spec['pol']}"], ["ok"]
+    in_call, parked, skip = {}, [], set()
+    inside, reads = set(), {}        # threads inside a critical section; flag reads of each since it entered
+
+    def tmo_word(t):
+        return "none" if t is None else ("zero" if t <= 0 else "pos")
+
+    for at, ev in enumerate(run.log):
+        k = ev[0]
+        thr = ev[1] if len(ev) > 1 else None
+        if k == "begin":
+            if (thr, at) in dead:
+                skip.add(thr)
+            if thr in skip:
+                continue
+            op, arg = ev[2], ev[3]
+            if op == "recv":
+                w = f"recv {arg}"
+            elif op == "get":
+                w = f"get {'task' if kinds.get(thr) == 'task' else 'plain'} {tmo_word(arg)}"
+            else:
+                w = op
+            lines.append(f"ccall {_tid(thr)} {w}")
+            outs.append("ok")
+            in_call[thr] = op
+        elif k == "end":
+            in_call.pop(thr, None)
+        elif k == "stopflag":
+            if thr in inside and thr not in skip:
+                # the flag is not protected by the lock: let the model thread do the flag reads the real one has done
+                lines.append(f"crunr {_tid(thr)} {reads.get(thr, 0)}")
+                outs.append("ok")
+                reads[thr] = 0
+            lines.append(f"cstop {_tid(thr)}")
+            outs.append("ok")
+        elif k == "flagread":
+            if thr in inside:
+                reads[thr] = reads.get(thr, 0) + 1
+        elif k == "notify":
+            if in_call.get(thr) != "recv":
+                for p in parked:          # stop_task's notify_all (or any other): an arbitrary wake-up in the model
+                    lines.append(f"cwake {_tid(p)}")
+                    outs.append("ok")
+        elif thr in skip or thr not in in_call:
+            continue
+        elif k == "enter":
+            lines.append(f"cacq {_tid(thr)}")
+            outs.append("ok")
+            inside.add(thr)
+            reads[thr] = 0
+        elif k == "park":
+            lines.append(f"crun {_tid(thr)}")
+            outs.append("parked")
+            parked.append(thr)
+            inside.discard(thr)
+        elif k == "unpark":
+            inside.add(thr)
+            reads[thr] = 0
+            if not ev[3]:
+                lines.append(f"cexpire {_tid(thr)}")
+                outs.append("ok")
+            lines.append(f"cunpark {_tid(thr)}")
+            outs.append("ok")
+            if thr in parked:
+                parked.remove(thr)
+        elif k == "exit":
+            inside.discard(thr)
+            c = res_at.get(at)
+            if c is None:
+                skip.add(thr)
+                continue
+            r = c["res"]
+            if c["op"] in ("recv", "discard"):
+                want = "unit"
+            elif c["op"] == "len":
+                want = str(r)
+            elif c["op"] == "ready":
+                want = "true" if r else "false"
+            elif r[0] == "sig":
+                want = f"sig {r[1]} {r[2]}"
+            elif r[0] in ("timeout", "taskstop"):
+                want = r[0]
+            else:
+                want = f"exc:{r[1]}"
+            lines.append(f"crun {_tid(thr)}")
+            outs.append(f"done {want}")
+            lines.append("cq")
+            outs.append(_qline(ev[2]))
+    return lines, outs
+
+
 # ---------------------------------------------------------------------------------------------------------------------
 # scenario generators
 # ---------------------------------------------------------------------------------------------------------------------
@@ -533,8 +692,20 @@ def gen_block(rng, seed_tag: str) -> dict:
     total = sum(len(r["calls"]) for r in readers)
     nd = rng.choice([2, 3])
     deliverers = [max(1, (total + rng.choice([0, 1, cap])) // nd) for _ in range(nd)]
-    return {"seed": seed_tag, "policy": rng.choice(["weighted", "pct"]), "cap": cap, "pol": rng.choice(["old", "new"]),
-            "prefill": rng.choice([0, 0, 1]), "deliverers": deliverers, "readers": readers, "rescue": total + 1}
+    # some of the task readers are asked to stop while the others keep waiting: a wake-up spent on a reader that leaves
+    # with the stop exception must not be lost for the others
+    stops = [{"reader": r, "parked": rng.random() < 0.7, "stall": rng.random() < 0.5}
+             for r, rd in enumerate(readers) if rd["kind"] == "task" and rng.random() < 0.5]
+    out = {"seed": seed_tag, "policy": rng.choice(["weighted", "pct"]), "cap": cap, "pol": rng.choice(["old", "new"]),
+           "prefill": rng.choice([0, 0, 1]), "deliverers": deliverers, "readers": readers, "stops": stops, "rescue": total + 1}
+    if stops and rng.random() < 0.5:
+        # the reader that is asked to stop goes to sleep first, signals arrive once everybody sleeps
+        first = stops[0]["reader"]
+        for r, rd in enumerate(readers):
+            if r != first:
+                rd["wait_parked"] = first
+        out.update(deliverers=[], prefill=0, rescue=total + 2, rescue_all=True)
+    return out
 
 
 def preempt_bases():
@@ -546,6 +717,16 @@ def preempt_bases():
         out.append({"cap": cap, "pol": pol, "prefill": 0, "deliverers": [1, 1, 1], "readers": [{"kind": "plain", "calls": [None, 0]}], "rescue": 2})
         out.append({"cap": cap, "pol": pol, "prefill": 1, "deliverers": [2], "discards": 1,
                     "readers": [{"kind": "task", "calls": [0, 0], "gates": [0]}], "stops": [{"reader": 0}]})
+    # two sleeping readers, one of them a task that is asked to stop while it sleeps, one arrival
+    out.append({"cap": 2, "pol": "old", "prefill": 0, "deliverers": [],
+                "readers": [{"kind": "task", "calls": [None]}, {"kind": "plain", "calls": [None], "wait_parked": 0}],
+                "stops": [{"reader": 0, "parked": True, "stall": True}], "rescue": 3, "rescue_all": True})
+    out.append({"cap": 1, "pol": "new", "prefill": 0, "deliverers": [],
+                "readers": [{"kind": "task", "calls": [None]}, {"kind": "task", "calls": [None], "wait_parked": 0}],
+                "stops": [{"reader": 0, "parked": True, "stall": True}], "rescue": 3, "rescue_all": True})
+    out.append({"cap": 2, "pol": "new", "prefill": 0, "deliverers": [1],
+                "readers": [{"kind": "plain", "calls": [5.0]}, {"kind": "task", "calls": [5.0]}],
+                "stops": [{"reader": 1, "parked": True, "stall": True}]})
     return out
 
 
